@@ -2,7 +2,7 @@
 """Print the markdown table of DESIGN section 12 from seeded/*/meta.json."""
 import json, os
 V = "/verif/seeded"
-print("| seeded change | breaks | needs to manifest | target check (quick) | also reported by |")
+print("| seeded change | needs to manifest | first contact | target check now (quick) | also reported by |")
 print("|---|---|---|---|---|")
 for sid in sorted(os.listdir(V)):
     m = json.load(open(os.path.join(V, sid, "meta.json")))
@@ -12,7 +12,12 @@ for sid in sorted(os.listdir(V)):
     clause = ""
     if c.get("violations"):
         clause = " `" + c["violations"][0].split(" ")[0].replace("clause=", "") + "`"
+    fc = m.get("first_contact", {}).get(t)
+    fcs = "-" if fc is None else ("caught" if fc.get("exit") == 1 else "missed")
     others = [p for p, r in sorted(m.get("checks", {}).items()) if r.get("exit") == 1 and p != t]
-    bad = [p for p, r in sorted(m.get("checks", {}).items()) if r.get("exit") not in (0, 1)]
-    print("| %s | %s | %s | %s%s | %s%s |" % (sid, t, m["needs_to_manifest"].replace("|", "/"), st, clause, ", ".join(others) or "-",
-                                            ("; harness exit 2: " + ", ".join(bad)) if bad else ""))
+    note = ""
+    if m.get("apply_to"):
+        note = " (against its base commit %s only)" % m["apply_to"]
+    if m.get("thorough_only"):
+        note += " " + m["thorough_only"]
+    print("| %s | %s | %s | %s%s%s | %s |" % (sid, m["needs_to_manifest"].replace("|", "/")[:230], fcs, st, clause, note, ", ".join(others) or "-"))
